@@ -20,6 +20,13 @@ def models : List (String × (String → String)) :=
    ("leanmark-html", Verif.Drv.LeanMark.stepHtml),
    ("leanmark-events", Verif.Drv.LeanMark.stepEvents),
    ("leanmark-inscope", Verif.Drv.LeanMark.stepInScope),
+   ("leanmark-amb", Verif.Drv.LeanMark.stepAmb),
+   ("leanmark-html-r1", Verif.Drv.LeanMark.stepHtmlR 1),
+   ("leanmark-html-r2", Verif.Drv.LeanMark.stepHtmlR 2),
+   ("leanmark-html-r3", Verif.Drv.LeanMark.stepHtmlR 3),
+   ("leanmark-events-r1", Verif.Drv.LeanMark.stepEventsR 1),
+   ("leanmark-events-r2", Verif.Drv.LeanMark.stepEventsR 2),
+   ("leanmark-events-r3", Verif.Drv.LeanMark.stepEventsR 3),
    ("wf", Verif.Drv.WellFormed.step),
    ("codec", Verif.Drv.Codec.step),
    ("frontmatter", Verif.Drv.FrontMatter.step)]
